@@ -184,6 +184,7 @@ int e2_explore(e2_spec_t *s) {
 			memcpy(payload, s->param, s->nparam); payload[s->nparam] = h.len; memcpy(payload + s->nparam + 1, h.ev, h.len);
 			size_t jn = job_build(job, NULL, 0, payload, s->nparam + 1 + h.len);
 			int nv = rep_collect(&r, s->harness, job, jn, human);
+			if (s->on_result) s->on_result(&r, h.ev, h.len, job, jn, human);
 			if (res_line(&r, 'N', 0)) continue;          /* event not applicable in this state */
 			if (depth > 0) s->transitions++;
 			uint64_t a, b;
